@@ -39,6 +39,8 @@ type funcContract struct {
 	panicsIf []clause
 	modifies []string // raw location strings; "*" = everything
 	hasMod   bool
+	// preserves: heap cells excluded from a coarse `modifies` (heap, pkg(..), elems)
+	preserves []string
 	loops    map[int]*loopSpec
 	trusted  bool // contract not checked against a body
 	pure     bool // modifies nothing, result is a function of args+heap
@@ -263,7 +265,7 @@ func newContractSet() *contractSet {
 var clauseKeywords = map[string]bool{
 	"prop": true, "requires": true, "ensures": true, "modifies": true, "loop": true, "trusted": true,
 	"pure": true, "panics-if": true, "nopanic": true, "maypanic": true, "mode": true, "decreases": true, "refines": true,
-	"noframe": true, "using": true, "noinv": true, "rec": true,
+	"noframe": true, "using": true, "noinv": true, "rec": true, "preserves": true,
 }
 
 var reLoop = regexp.MustCompile(`^(\d+)\s*:\s*(invariant|decreases)\s+(.*)$`)
@@ -446,6 +448,13 @@ func (cs *contractSet) loadContractFile(path, pkgPath string) error {
 						m = strings.TrimSpace(m)
 						if m != "" && m != "nothing" {
 							fc.modifies = append(fc.modifies, m)
+						}
+					}
+				case "preserves":
+					for _, m := range strings.Split(rest, ",") {
+						m = strings.TrimSpace(m)
+						if m != "" {
+							fc.preserves = append(fc.preserves, m)
 						}
 					}
 				case "trusted":
